@@ -17,8 +17,8 @@ const uuPkg = "lib/uu"
 
 func init() {
 	register("C15", &propDef{
-		Run: checkC15,
-		Explanation: "Static decision of the clauses of C15 whose truth is in the shape of the code. (1) Purity: in AppendEncode/AppendDecode and their loop-body closures every element store, copy destination and append base is classified by an alias analysis over {src, dst, fresh} with a 'capacity clipped' flag (slices.Chunk and bytes.Split yield clipped sub-slices, plain re-slicing does not): stores go only to fresh memory, append never extends an unclipped alias of src, dst is only appended to, and src/dst-rooted slices are passed only to read-only library functions. (2) Totality: every loop is a range over a slice/array or an allow-listed finite iterator, there is no recursion, channel, lock or unchecked type assertion, no division by a non-constant, the only panics are the compiler's own range-over-func guards, and — index safety — every index and slice expression of the codec is proved in bounds for all inputs by a small prover over linear terms (facts from dominating branch edges including the (len-1)&3 congruence test, lengths of re-slices/append/Clone/iterator chunks, an inductive invariant of the remaining-count cell, case splits over phis): so the decoder cannot panic on any text. (3) Bit layout, for all inputs at once: an abstract interpreter with per-bit provenance shows that the encoder's four 6-bit symbols are exactly input bits 0-5, 6-11, 12-17, 18-23 (most significant first) of each 3-byte group, and that the decoder rebuilds bytes 0,1,2 from those same bit positions — i.e. the regrouping is uuencode's and decode∘encode is the identity on the regrouping. (4) Symbol tables, exhaustively over their finite domains: the encoder maps sextet 0 to '`' and s to s+32 (Perl's pack 'u' alphabet), the decoder accepts exactly 32..95 after mapping '`' to space, and decode(symbol(s)) = s for all 64 sextets. (5) Framing constants: 45 bytes per line, length character 32+len, 3→4 grouping, zero padding, newline terminator. Not decided: the Max*Len bounds (numerical) and byte-for-byte identity with perl beyond the clauses above.",
+		Run:         checkC15,
+		Explanation: "Static decision of the clauses of C15 whose truth is in the shape of the code. (1) Purity: in AppendEncode/AppendDecode and their loop-body closures every element store, copy destination and append base is classified by an alias analysis over {src, dst, fresh} with a 'capacity clipped' flag (slices.Chunk and bytes.Split yield clipped sub-slices, plain re-slicing does not): stores go only to fresh memory, append never extends an unclipped alias of src, dst is only appended to, and src/dst-rooted slices are passed only to read-only library functions. (2) Totality: every loop is a range over a slice/array or an allow-listed finite iterator, there is no recursion, channel, lock or unchecked type assertion, no division by a non-constant, the only panics are the compiler's own range-over-func guards, and — index safety — every index and slice expression of the codec is proved in bounds for all inputs by a small prover over linear terms (facts from dominating branch edges including the (len-1)&3 congruence test, lengths of re-slices/append/Clone/iterator chunks, an inductive invariant of the remaining-count cell, case splits over phis): so the decoder cannot panic on any text. (3) Bit layout, for all inputs at once: an abstract interpreter with per-bit provenance shows that the encoder's four 6-bit symbols are exactly input bits 0-5, 6-11, 12-17, 18-23 (most significant first) of each 3-byte group, and that the decoder rebuilds bytes 0,1,2 from those same bit positions — i.e. the regrouping is uuencode's and decode∘encode is the identity on the regrouping. (4) Symbol tables, exhaustively over their finite domains: the encoder maps sextet 0 to '`' and s to s+32 (Perl's pack 'u' alphabet), the decoder accepts exactly 32..95 after mapping '`' to space, and decode(symbol(s)) = s for all 64 sextets. (5) Framing constants: 45 bytes per line, length character 32+len, 3→4 grouping, zero padding, newline terminator. (6) Length bounds: the growth of dst is read off the loops (elements per append onto dst, per iteration of the constant-size slices.Chunk loops: exact for the encoder; for the decoder at most 3 bytes per full 4-byte group, groups being disjoint pieces of src) and compared, for every input length, with the arithmetic of MaxEncodedLen/MaxDecodedLen read off their SSA; both sides are quasi-linear in the length, so the comparison is decided by tabulating one period and comparing per-period increments; MaxDecodedLen must also cover the encoder's own output. Not decided: byte-for-byte identity with perl beyond the clauses above; overflow of the bounds near 2^63.",
 		Assumptions: []string{"slices.Chunk yields sub-slices with capacity clipped to their length; bytes.Split likewise", "Perl's pack('u') alphabet: sextet 0 → '`', otherwise +32; 45 bytes per line"},
 	})
 }
@@ -417,6 +417,7 @@ func checkC15(p *Prog, r *Report) {
 		r.Note("index-safety: %d sites; cell invariants: %s; exact chunk lengths: %d closures", n, strings.Join(inv, ", "), len(ip.chunkEq))
 	}
 	checkC15Frame(p, r, rFrame, fns)
+	checkC15Bounds(p, r, r.Rule("length-bounds", "MaxEncodedLen and MaxDecodedLen are never below what AppendEncode / AppendDecode append, for every input length"), fns)
 	checkC15Bits(p, r, rBits, fns)
 	checkC15Tables(p, r, rTab, fns)
 }
